@@ -23,6 +23,7 @@ typedef struct {
     uintptr_t actor;
     int kind;
     uintptr_t a, b, c;
+    uint32_t rep, last; /* idle-loop compression: repetitions, position of the latest one */
 } vh_event;
 
 #define VH_MAX_EVENTS (1u << 21)
@@ -144,16 +145,53 @@ static void vh_trace_unlock(void)
             usleep((useconds_t)(1 + (r >> 8) % (unsigned)vh_target_us));
     }
 }
+/* idle-loop compression: a scheduler that spins on empty pools repeats the same few
+ * lock-free reads (QEMPTY = 1, num_scheds, num_blocked, empty pops); a read that is
+ * identical (kind, object, value) to one of the actor's last VH_IDLE_RING idle records,
+ * with no other record of that actor in between, is not stored again (its repeat count
+ * and the global position of its latest repetition are kept in the stored record). */
+#define VH_IDLE_RING 8
+static __thread uint32_t vh_tl_idle[VH_IDLE_RING];
+static __thread int vh_tl_nidle;
+static int vh_is_idle_kind(int kind, uintptr_t b, uintptr_t c)
+{
+    return (kind == ABTI_VEV_Q_EMPTY && c == 1) || kind == ABTI_VEV_NSCHED_LOAD || kind == ABTI_VEV_NB_LOAD ||
+           (kind == ABTI_VEV_Q_POP && b == 0) || kind == ABTI_VEV_SREQ_LOAD;
+}
 static void vh_trace_ev(int kind, uintptr_t a, uintptr_t b, uintptr_t c)
 {
     /* called with the trace lock held */
-    if (!vh_log_all && kind < ABTI_VEV_USER && vh_find_obj(a) < 0)
-        return;
+    if (kind < ABTI_VEV_USER && vh_find_obj(a) < 0) {
+        /* unregistered object: spinlock/wait-list/data records are dropped; scheduler-level
+         * records (kinds >= 30) are kept when the harness asked for all of them */
+        if (!(vh_log_all && kind >= ABTI_VEV_Q_PUSH))
+            return;
+    }
     uint32_t n = vh_nevents;
     if (n >= VH_MAX_EVENTS) {
         vh_overflow = 1;
         return;
     }
+    if (vh_is_idle_kind(kind, b, c)) {
+        int k;
+        for (k = 0; k < vh_tl_nidle; k++) {
+            vh_event *o = &vh_events[vh_tl_idle[k]];
+            if (o->kind == kind && o->a == a && o->b == b && o->c == c) {
+                o->rep++;
+                o->last = n;
+                return;
+            }
+        }
+        if (vh_tl_nidle < VH_IDLE_RING)
+            vh_tl_idle[vh_tl_nidle++] = n;
+        else {
+            memmove(vh_tl_idle, vh_tl_idle + 1, sizeof(uint32_t) * (VH_IDLE_RING - 1));
+            vh_tl_idle[VH_IDLE_RING - 1] = n;
+        }
+    } else
+        vh_tl_nidle = 0;
+    vh_events[n].rep = 0;
+    vh_events[n].last = n;
     vh_events[n].actor = vh_actor();
     vh_events[n].kind = kind;
     vh_events[n].a = a;
@@ -220,6 +258,35 @@ static const char *vh_kind_name(int k)
         case ABTI_VEV_DATA: return "DATA";
         case ABTI_VEV_LOAD: return "LOAD";
         case ABTI_VEV_CALLBACK: return "CALLBACK";
+        case ABTI_VEV_Q_PUSH: return "QPUSH";
+        case ABTI_VEV_Q_POP: return "QPOP";
+        case ABTI_VEV_Q_REMOVE: return "QREMOVE";
+        case ABTI_VEV_Q_EMPTY: return "QEMPTY";
+        case ABTI_VEV_NB_ADD: return "NBADD";
+        case ABTI_VEV_NB_LOAD: return "NBLOAD";
+        case ABTI_VEV_NSCHED_LOAD: return "NSLOAD";
+        case ABTI_VEV_REQ_OR: return "REQOR";
+        case ABTI_VEV_REQ_AND: return "REQAND";
+        case ABTI_VEV_REQ_LOAD: return "REQLOAD";
+        case ABTI_VEV_STATE: return "STATE";
+        case ABTI_VEV_STATE_LOAD: return "STLOAD";
+        case ABTI_VEV_LINK_STORE: return "LINKST";
+        case ABTI_VEV_LINK_LOAD: return "LINKLD";
+        case ABTI_VEV_CB: return "CB";
+        case ABTI_VEV_FUTEX_RESUME: return "FUTEXRES";
+        case ABTI_VEV_SET_POOL: return "SETPOOL";
+        case ABTI_VEV_MIG_STORE: return "MIGST";
+        case ABTI_VEV_MIG_LOAD: return "MIGLD";
+        case ABTI_VEV_MIG_CB: return "MIGCB";
+        case ABTI_VEV_UNIT_INIT: return "UINIT";
+        case ABTI_VEV_UNIT_REVIVE: return "UREVIVE";
+        case ABTI_VEV_UNIT_FREE: return "UFREE";
+        case ABTI_VEV_SREQ_OR: return "SREQOR";
+        case ABTI_VEV_SREQ_LOAD: return "SREQLD";
+        case ABTI_VEV_XSTATE: return "XSTATE";
+        case ABTI_VEV_SCHED_STOP: return "SCHEDSTOP";
+        case ABTI_VEV_RUN_TASK: return "RUNTASK";
+        case ABTI_VEV_NB_WHO: return "NBWHO";
         case VH_EV_OP_BEGIN: return "BEGIN";
         case VH_EV_OP_END: return "END";
         case VH_EV_NOTE: return "NOTE";
@@ -251,7 +318,14 @@ static void vh_dump(FILE *f, const char *status)
             snprintf(kbuf, sizeof kbuf, "K%d", e->kind);
             kn = kbuf;
         }
-        fprintf(f, "%d %s", ai, kn);
+        if (vh_log_all)
+            fprintf(f, "%d@%" PRIxPTR " %s", ai, e->actor, kn);
+        else
+            fprintf(f, "%d %s", ai, kn);
+        if (e->kind >= ABTI_VEV_Q_PUSH && e->kind < ABTI_VEV_USER) {
+            fprintf(f, " %" PRIxPTR " %" PRIxPTR " %" PRIxPTR "\n", e->a, e->b, e->c);
+            continue;
+        }
         if (e->kind < ABTI_VEV_USER) {
             int oi = vh_find_obj(e->a);
             if (oi >= 0)
